@@ -822,6 +822,188 @@ def check_seq_variants(args):
     return res
 
 
+# ------------------------------------------------------------------------------------------------ RedVAR
+RV_STRUCTS = ((("a", "b"), (), 1, True), (("a",), ("x",), 2, True))
+
+
+def _rv_db(ir, endo, exo, k, ncol=10):
+    """data set number k (different numbers for different k)"""
+    start = ir.qq(2000, 1)
+    db = ir.Databox()
+    for i, n in enumerate(list(endo) + list(exo)):
+        db[n] = ir.Series(start=start, values=tuple(0.3 + 0.17 * ((3 * i + 5 * j + 2 * k) % 7) - 0.05 * j + 0.01 * k * ((i + j) % 3) for j in range(ncol)))
+    return db, start >> (start + ncol - 1), start
+
+
+def rv_fresh(ir, struct):
+    endo, exo, order, intercept = struct
+    return ir.RedVAR(list(endo), exogenous_names=list(exo) or None, order=order, intercept=intercept)
+
+
+def rv_apply(ir, m, struct, op, log):
+    try:
+        if op[0] == "estimate":
+            db, span, _ = _rv_db(ir, struct[0], struct[1], op[1])
+            m.estimate(db, span, omit_missing=True)
+        else:
+            raise ValueError(op[0])
+        log.append((op[0], "ok"))
+    except Exception as exc:
+        log.append((op[0], type(exc).__name__))
+
+
+def rv_observe(ir, m, struct):
+    from checks.C18 import lifted_simulate
+    endo, exo, order, intercept = struct
+    ob = {"num_variants": [str(m.num_variants)]}
+    v = m._variants[0]
+    mats = []
+    for nm in ("A", "B", "c", "cov_residuals"):
+        x = getattr(v.system, nm, None)
+        mats.append("None" if x is None else json.dumps(list(np.asarray(x, dtype=float).shape)))
+        if x is not None:
+            mats.extend(float(t) for t in np.asarray(x, dtype=float).ravel())
+    ob["system"] = mats
+    ob["fitted_periods"] = [json.dumps([str(p) for p in v.fitted_periods])]
+    if v.system.A is None:
+        ob["simulate"] = ["not estimated"]
+        return ob
+    ncol = 10
+    start = ir.qq(2000, 1)
+    dbs = ir.Databox()
+    for i, n in enumerate(list(endo) + list(exo)):
+        dbs[n] = ir.Series(start=start, values=tuple(0.4 + 0.1 * ((i + j) % 4) for j in range(ncol)))
+    for i, n in enumerate(endo):
+        dbs["res_" + n] = ir.Series(start=start + order, values=tuple(0.05 * ((2 * i + j) % 3) - 0.04 for j in range(order, order + 3)))
+    sim_span = (start + order) >> (start + order + 2)
+    try:
+        cap, path = lifted_simulate(ir, m, endo, exo, order, dbs, sim_span, start)
+        names, periods, out = cap["names"], cap["periods"], cap["out"]
+        row = {n: i for i, n in enumerate(names)}
+        col = {periods[j] - start: j for j in range(len(periods))}
+        ob["simulate"] = [out[row[n], col[k]] for n in endo for k in range(order, order + 3)]
+    except S.SymbolicBranchError:
+        raise
+    except Exception as exc:
+        ob["simulate"] = [f"raises:{type(exc).__name__}"]
+    return ob
+
+
+def rv_histories(tier):
+    alpha = [("estimate", 1), ("estimate", 2)]
+    out = []
+    for how in ("copy", "pickle", "dill", "deepcopy"):
+        for prefix in ((), (("estimate", 0),)):
+            single = [(t, op) for t in ("M", "C") for op in alpha]
+            out.append(dict(how=how, prefix=list(prefix), ops=[]))
+            for L in (1, 2):
+                for seq in itertools.product(single, repeat=L):
+                    out.append(dict(how=how, prefix=list(prefix), ops=list(seq)))
+    return out
+
+
+def check_rv_history(args):
+    struct, hist = args
+    run = Run(PID, "worker")
+    sname = f"{'+'.join(struct[0])}|{'+'.join(struct[1])}|p{struct[2]}"
+    ops = "+".join(f"{t}.{'_'.join(str(x) for x in op)}" for t, op in hist["ops"]) or "none"
+    res = dict(key=f"redvar:{sname}:{hist['how']}:prefix={len(hist['prefix'])}:{ops}", status="error", what="", nontrivial=False, hist=hist, spec=sname,
+               struct=[list(struct[0]), list(struct[1]), struct[2], struct[3]])
+    try:
+        ir = load_irispie()
+        logs = {k: [] for k in ("M", "C", "FM", "FC")}
+        M, FM, FC = rv_fresh(ir, struct), rv_fresh(ir, struct), rv_fresh(ir, struct)
+        for op in hist["prefix"]:
+            for k, mm in (("M", M), ("FM", FM), ("FC", FC)):
+                rv_apply(ir, mm, struct, tuple(op), logs[k])
+        try:
+            C = seq_duplicate(M, hist["how"])
+        except Exception as exc:
+            raise DuplicateFailed(f"duplicating the RedVAR by {hist['how']} raises {type(exc).__name__}: {str(exc)[:160]}")
+        logs["C"] = list(logs["M"])
+        for target, op in hist["ops"]:
+            op = tuple(op)
+            if target == "M":
+                rv_apply(ir, M, struct, op, logs["M"]); rv_apply(ir, FM, struct, op, logs["FM"])
+            else:
+                rv_apply(ir, C, struct, op, logs["C"]); rv_apply(ir, FC, struct, op, logs["FC"])
+        status, what, nontrivial = "ok", "", False
+        models = dict(M=M, C=C, FM=FM, FC=FC)
+        for side, ref in (("M", "FM"), ("C", "FC")):
+            if logs[side] != logs[ref]:
+                status, what = "sat", f"{side}: operation outcomes {logs[side]} differ from the oracle's {logs[ref]}"
+                break
+        if status == "ok":
+            obs = {k: rv_observe(ir, models[k], struct) for k in models}
+            for side, ref in (("M", "FM"), ("C", "FC")):
+                status, what, nt = compare(run, obs[side], obs[ref], side)
+                nontrivial = nontrivial or nt
+                if status != "ok":
+                    break
+        res.update(status=status, what=what, nontrivial=nontrivial)
+    except DuplicateFailed as exc:
+        res.update(status="sat", what=str(exc))
+    except S.SymbolicBranchError as exc:
+        res.update(status="unknown", what=f"symbolic branch: {exc}")
+    except Exception as exc:
+        import traceback
+        res.update(status="error", what="".join(traceback.format_exception(type(exc), exc, exc.__traceback__))[-1200:])
+    res["q"] = dict(run.q)
+    res["solver_s"] = run.solver_s
+    return res
+
+
+def _rv_replay(ir, case):
+    struct = (tuple(case["struct"][0]), tuple(case["struct"][1]), case["struct"][2], case["struct"][3])
+    hist = case["hist"]
+    logs = {k: [] for k in ("M", "C", "FM", "FC")}
+    M, FM, FC = rv_fresh(ir, struct), rv_fresh(ir, struct), rv_fresh(ir, struct)
+    for op in hist["prefix"]:
+        for k, mm in (("M", M), ("FM", FM), ("FC", FC)):
+            rv_apply(ir, mm, struct, tuple(op), logs[k])
+    try:
+        C = seq_duplicate(M, hist["how"])
+    except Exception as exc:
+        return True, f"duplicating the RedVAR by {hist['how']} raises {type(exc).__name__}: {exc}"
+    logs["C"] = list(logs["M"])
+    for target, op in hist["ops"]:
+        op = tuple(op)
+        if target == "M":
+            rv_apply(ir, M, struct, op, logs["M"]); rv_apply(ir, FM, struct, op, logs["FM"])
+        else:
+            rv_apply(ir, C, struct, op, logs["C"]); rv_apply(ir, FC, struct, op, logs["FC"])
+
+    def conc(m):
+        v = m._variants[0]
+        out = {"fitted": json.dumps([str(p) for p in v.fitted_periods])}
+        for nm in ("A", "B", "c", "cov_residuals"):
+            x = getattr(v.system, nm, None)
+            out[nm] = "None" if x is None else np.asarray(x, dtype=float)
+        if v.system.A is not None:
+            endo, exo, order, _ = struct
+            start = ir.qq(2000, 1)
+            dbs = ir.Databox()
+            for i, n in enumerate(list(endo) + list(exo)):
+                dbs[n] = ir.Series(start=start, values=tuple(0.4 + 0.1 * ((i + j) % 4) for j in range(10)))
+            for i, n in enumerate(endo):
+                dbs["res_" + n] = ir.Series(start=start + order, values=tuple(0.05 * ((2 * i + j) % 3) - 0.04 for j in range(order, order + 3)))
+            sp = (start + order) >> (start + order + 2)
+            try:
+                o = m.simulate(dbs, sp)
+                o = o[0] if isinstance(o, tuple) else o
+                out["simulate"] = {n: np.asarray(o[n].get_data(sp), dtype=float) for n in endo}
+            except Exception as exc:
+                out["simulate"] = f"raises:{type(exc).__name__}"
+        return out
+    for side, ref, a, b in (("M", "FM", M, FM), ("C", "FC", C, FC)):
+        if logs[side] != logs[ref]:
+            return True, f"{side}: operation outcomes {logs[side]} vs freshly built model {logs[ref]}"
+        d = _differs(conc(a), conc(b), side)
+        if d:
+            return True, f"after the history, {('the original' if side == 'M' else 'the duplicate')} RedVAR differs from a freshly built one put through the same operations: {d}"
+    return False, "floats agree"
+
+
 # ------------------------------------------------------------------------------------------------ main
 def _pool_map(fn, jobs):
     import multiprocessing as mp
@@ -857,7 +1039,7 @@ def main(run):
     run.functions_encoded += ["Simultaneous.copy / __getstate__ / __setstate__ / to_portable / from_portable / alter_num_variants / get_variant / assign / steady / solve "
                               "(executed concretely as the history)", "simultaneous._invariants.Invariant.{copy,__getstate__,__setstate__,_populate_derived_attributes,to_portable,from_portable}",
                               "simultaneous._variants.Variant.copy", "equators.plain.PlainEquator.{__getstate__,__setstate__,_create_function,eval} (lifted)",
-                              "fords.simulators.simulate_frame (lifted)", "steadiers.evaluators / simultaneous._steady (lifted, solver stubbed)", "fords.kalmans (lifted)"]
+                              "fords.simulators.simulate_frame (lifted)", "RedVAR.copy / Variant.copy / System.copy, RedVAR.estimate (executed), RedVAR.simulate (lifted as in C18)", "steadiers.evaluators / simultaneous._steady (lifted, solver stubbed)", "fords.kalmans (lifted)"]
     run.bounds["structures"] = ("models pc_const, ar2m (linear, measurement), drift (unit root, parameter-dependent steady change), stat_nl, rbc_flat (non-linear, log-variables); duplicates by copy, pickle, to_pickle_bytes, dill, "
                                 "copy.deepcopy, portable via JSON; duplicate taken before or after steady+solve; histories of <=1 operation for every duplicate kind, <=2 for "
                                 "copy (quick) and copy/pickle/portable (thorough), 3 for copy on two models (thorough), each operation addressed to either side, from "
@@ -866,7 +1048,7 @@ def main(run):
     run.stubs += ["steady-state solver -> contract stub of C05 (fresh symbols, real eval_func executed)", "Kalman inverse/det shims of symx/kf.py"]
     run.assumptions += ["cells are mathematical reals", "the oracle pair is parsed afresh from the same source and put through the same operations with the real code: "
                         "equivalence is relative to the behaviour of a freshly built model", "QZ solution and steady-state numbers are concrete (computed by the real code on each side)"]
-    run.outside += ["file-based save/load", "object identity as such", "RedVAR", "stacked-time simulation of the duplicates", "histories longer than the bound"]
+    run.outside += ["file-based save/load", "object identity as such", "RedVAR with several variants", "stacked-time simulation of the duplicates", "histories longer than the bound"]
     quick = run.tier == "quick"
     jobs = []
     for spec in specs():
@@ -891,7 +1073,11 @@ def main(run):
     svjobs = [(tpl, nvar, k) for tpl in SEQ_TEMPLATES for nvar in ((2,) if quick else (2, 3)) for k in range(nvar)]
     svres = _pool_map(check_seq_variants, svjobs)
     _absorb(run, svres, lambda r: "sequential:variants", lambda r: dict(kind="seq_variants", tpl=r["tpl"], spec=r["spec"], **r["variant"]))
-    results = results + sres
+    rjobs = [(st, h) for st in (RV_STRUCTS[:1] if quick else RV_STRUCTS) for h in rv_histories(run.tier)]
+    rres = _pool_map(check_rv_history, rjobs)
+    _absorb(run, rres, lambda r: f"redvar:history:{r['hist']['how']}", lambda r: dict(kind="rv_history", struct=r["struct"], hist=r["hist"], spec=r["spec"]))
+    run.extra["redvar_histories"] = len(rjobs)
+    results = results + sres + rres
     vres = vres + svres
     run.extra["sequential_histories"] = len(sjobs)
     run.reach_ok = sum(1 for r in results + vres if r.get("nontrivial"))
@@ -1000,6 +1186,8 @@ def replay(case):
     ir = load_irispie()
     if case["kind"] in ("seq_history", "seq_variants"):
         return _seq_replay(ir, case)
+    if case["kind"] == "rv_history":
+        return _rv_replay(ir, case)
     spec = spec_by_name(case["spec"])
     if case["kind"] == "history":
         hist = case["hist"]
